@@ -574,9 +574,9 @@ pub fn run(report: &Report, tier: &Tier) {
     }
     report.merge(l);
     let seed = report.seed;
-    let n: u64 = if tier.thorough { 1_500_000 } else { 40_000 };
+    let n: u64 = if tier.thorough { 30_000_000 } else { 40_000 };
     let batch = 50;
-    run_parallel(report, n / batch, threads(), tier.budget_s, |i, l| {
+    run_parallel(report, n / batch, threads(), tier.budget_s * 0.6, |i, l| {
         let mut rng = Rng::new(util::mix(seed, 0xC02_0000 + i));
         for _ in 0..batch {
             let c = gen_case(&mut rng);
